@@ -411,6 +411,7 @@ class Ctx(object):
         self.forks = []             # alternative prefixes discovered
         self.divisors = {}
         self.divisor_kind = {}      # id -> 'code' | 'spec' (only tracked for the definedness check)
+        self.positive_kind = {}
         self.track_div_kind = bool(self.opts.get('definedness')) or os.environ.get('SYMX_DEFINEDNESS', '1') == '1'
         self.spec_depth = 0         # >0 while a numpy.linalg stand-in (exact inverse/solve/det) runs
         self.positives = {}
@@ -502,33 +503,35 @@ class Ctx(object):
         return self.atomdefs2.get((name, a.id, b.id))
 
     # -- definedness -----------------------------------------------------------
+    def _who(self):
+        """'code' if the operation is performed by a line of the implementation under analysis;
+        'spec' for oracle tables, the DAG differentiator, factorisation contract stubs and the
+        exact inverse/solve standing for numpy.linalg (their divisors delimit the domain on which
+        the property is stated)"""
+        if self.spec_depth:
+            return 'spec'
+        f = sys._getframe(2)
+        while f is not None:
+            fn = f.f_code.co_filename
+            if fn.endswith(_SKIP_FRAMES):
+                f = f.f_back
+                continue
+            return 'code' if fn.startswith(_CODE_PREFIX) else 'spec'
+        return 'spec'
+
     def note_divisor(self, d):
         if d.id not in self.divisors:
             self.divisors[d.id] = d
-        if not self.track_div_kind:
-            return
-        # who divides?  'code' = a line of the implementation under analysis; anything
-        # else (oracle tables, DAG differentiator, factorisation contract stubs, the exact
-        # inverse/solve standing for numpy.linalg) is part of the specification side, whose
-        # divisors delimit the domain on which the property is stated
-        if self.divisor_kind.get(d.id) == 'spec':
-            return
-        kind = 'spec'
-        if not self.spec_depth:
-            f = sys._getframe(1)
-            while f is not None:
-                fn = f.f_code.co_filename
-                if fn.endswith(_SKIP_FRAMES):
-                    f = f.f_back
-                    continue
-                if fn.startswith(_CODE_PREFIX):
-                    kind = 'code'
-                break
-        self.divisor_kind[d.id] = kind
+        if self.track_div_kind and self.divisor_kind.get(d.id) != 'spec':
+            self.divisor_kind[d.id] = self._who()
 
     def note_positive(self, d, why=''):
-        if d.op != 'const' and d.id not in self.positives:
+        if d.op == 'const':
+            return
+        if d.id not in self.positives:
             self.positives[d.id] = d
+        if self.track_div_kind and self.positive_kind.get(d.id) != 'spec':
+            self.positive_kind[d.id] = self._who()
 
     # -- obligations -----------------------------------------------------------
     def eq(self, lhs, rhs, label=''):
@@ -638,7 +641,8 @@ class Ctx(object):
             n, dd = self.nf.of(d)
             out.append('(not (= %s 0))' % smt.term(n))
         for d in self.positives.values():
-            out.append(smt.boolean(d > 0))
+            if divisors or self.positive_kind.get(d.id) != 'code':
+                out.append(smt.boolean(d > 0))
         # bounds of the irrational constants
         for name, s in list(S._KAPPA_SYMS.items()):
             lo, hi = S._KAPPA_BOUNDS[name]
